@@ -1,4 +1,4 @@
 From Coq Require Extraction.
 From Coq Require Import ExtrOcamlBasic.
 From Echo Require Import Glue.G17.
-Extraction "extracted/m17.ml" G17.run.
+Extraction "extracted/m17.ml" G17.run_sx.
